@@ -120,6 +120,14 @@ void a_que_swap(a_que *lhs, a_que *rhs)
 int a_que_drop(a_que *ctx, void (*dtor)(void *))
 {
     a_list *const head = &ctx->head_, *node;
+    if (ctx->mem_ - ctx->cur_ < ctx->num_) /* reserve the pool for every element first: all or nothing */
+    {
+        a_size const mem = a_size_up(sizeof(void *), ctx->cur_ + ctx->num_);
+        a_list **const ptr = (a_list **)a_alloc((void *)ctx->ptr_, sizeof(void *) * mem);
+        if (A_UNLIKELY(!ptr)) { return A_OMEMORY; }
+        ctx->ptr_ = ptr;
+        ctx->mem_ = mem;
+    }
     for (node = head->next; node != head; node = head->next)
     {
         int rc = a_que_die_(ctx, node);
